@@ -71,6 +71,7 @@ var c03Classes = []*c03Class{
 	{Name: "struct", T: "Pt", Sfx: "Pt", Zero: "Pt{}", Cmp: true, Self: "vP.X", SelfT: "int"},
 	{Name: "array", T: "[2]int", Sfx: "Arr", Zero: "[2]int{}", Cmp: true, Self: "vP[vN]", SelfT: "int"},
 	{Name: "tslice", T: "T", TP: "[T ~[]int]", Gen: true, Sfx: "G", Zero: "T(nil)", Nilable: true, Self: "vP[vN]", SelfT: "int"},
+	{Name: "tord", T: "T", TP: "[T ~int | ~string]", Gen: true, Sfx: "G", Zero: "*new(T)", Cmp: true, Ord: true, Str: true, Self: "vP + vQ", SelfT: "T"},
 	{Name: "tint", T: "T", TP: "[T ~int | ~int64]", Gen: true, Sfx: "G", Zero: "T(0)", Cmp: true, Ord: true, Arith: true, Integer: true, Self: "vP + vQ", SelfT: "T"},
 }
 
@@ -297,14 +298,14 @@ var c03Forms = []c03Form{
 	// operands
 	{"ident", fCore, "vP", "τ", nil},
 	{"zero", fCore, "‹Z›", "τ", nil},
-	{"paren", fCore, "(vP)", "τ", nil},
+	{"paren", 0, "(vP)", "τ", nil},
 	// composite literals
 	{"slicelit", fCore, "[]τ{vP, vQ}", "[]τ", nil},
 	{"arraylit", 0, "[...]τ{vP, 1: vQ}", "[2]τ", nil},
 	{"maplit", fCore, `map[string]τ{"a": vP, "b": vQ}`, "map[string]τ", nil},
 	{"structlit", fCore, "‹St›{F: vP}", "‹St›", nil},
 	{"structlit-unkeyed", 0, "‹St›{vP, nil}", "‹St›", nil},
-	{"structlit-ptr", fCore, "&‹St›{F: vP}", "*‹St›", nil},
+	{"structlit-ptr", 0, "&‹St›{F: vP}", "*‹St›", nil},
 	{"complit-elided", 0, "[]‹St›{{F: vP}, {vQ, nil}}", "[]‹St›", nil},
 	{"complit-elided-ptr", 0, "[]*‹St›{{F: vP}}", "[]*‹St›", nil},
 	{"complit-elided-map", 0, `map[string]‹St›{"a": {F: vP}}`, "map[string]‹St›", nil},
@@ -312,13 +313,13 @@ var c03Forms = []c03Form{
 	{"complit-embedded", 0, "‹Em›{‹StName›: ‹St›{F: vP}, N: vN}", "‹Em›", nil},
 	{"anonstruct", 0, "struct {\n\tA τ\n\tB int\n}{vP, vN}", "struct {\n\tA τ\n\tB int\n}", nil},
 	// function literals
-	{"funclit", fCore, "func(x τ) τ { return x }", "func(τ) τ", nil},
+	{"funclit", 0, "func(x τ) τ { return x }", "func(τ) τ", nil},
 	{"funclit-call", fCore | fCall, "func() τ { return vP }()", "τ", nil},
 	{"closure-write", fCall, "func() τ { vQ = vP; return vQ }()", "τ", nil},
 	{"closure-nested", fCall, "func() func() τ { return func() τ { return vP } }()()", "τ", nil},
 	// selectors
 	{"field", fCore, "vSt.F", "τ", nil},
-	{"field-ptr", fCore, "vPSt.F", "τ", nil},
+	{"field-ptr", 0, "vPSt.F", "τ", nil},
 	{"field-promoted", fCore, "vEm.F", "τ", nil},
 	{"field-chain", 0, "vPSt.G.G.F", "τ", nil},
 	{"field-of-call", 0, "func() ‹St› { return vSt }().F", "τ", nil},
@@ -328,7 +329,7 @@ var c03Forms = []c03Form{
 	{"method-call-promoted-ptr", fCall, "vEm.PM()", "τ", nil},
 	{"method-value", fCore, "vSt.M", "func() τ", nil},
 	{"method-value-ptr", 0, "vPSt.PM", "func() τ", nil},
-	{"method-expr", fCore, "‹St›.M", "func(‹St›) τ", nil},
+	{"method-expr", 0, "‹St›.M", "func(‹St›) τ", nil},
 	{"method-expr-ptr", 0, "(*‹St›).PM", "func(*‹St›) τ", nil},
 	{"method-expr-call", fCall, "(*‹St›).M(vPSt)", "τ", nil},
 	{"iface-call", fCore | fCall, "vIf.M()", "τ", nil},
@@ -346,7 +347,7 @@ var c03Forms = []c03Form{
 	{"slice-high", 0, "vS[:vN]", "[]τ", nil},
 	{"slice-zero", 0, "vS[:0]", "[]τ", nil},
 	{"slice-full", 0, "vS[1:vN:vN]", "[]τ", nil},
-	{"slice-array", fCore, "vA[:]", "[]τ", nil},
+	{"slice-array", 0, "vA[:]", "[]τ", nil},
 	{"slice-ptrarray", 0, "vPA[1:]", "[]τ", nil},
 	{"slice-string", 0, "vStr[vN:]", "string", nil},
 	// assertions, calls
@@ -354,7 +355,7 @@ var c03Forms = []c03Form{
 	{"assert-iface", fCommaOk, "vI.(‹If›)", "‹If›", nil},
 	{"assert-iface2", fCommaOk, "vIf.(interface{ PM() τ })", "interface{ PM() τ }", nil},
 	{"call", fCore | fCall, "vF(vP)", "τ", nil},
-	{"call-variadic", fCore | fCall, "‹va›(vP, vQ)", "τ", nil},
+	{"call-variadic", fCall, "‹va›(vP, vQ)", "τ", nil},
 	{"call-spread", fCall, "‹va›(vS...)", "τ", nil},
 	{"call-variadic-empty", fCall, "‹vaE›()", "τ", nil},
 	{"call-generic-infer", fCore | fCall, "idG(vP)", "τ", nil},
@@ -389,7 +390,7 @@ var c03Forms = []c03Form{
 	{"neg", 0, "-vP", "τ", condArith},
 	{"pos", 0, "+vP", "τ", condArith},
 	{"compl", 0, "^vP", "τ", condInt},
-	{"not", fCore, "!vB", "bool", nil},
+	{"not", 0, "!vB", "bool", nil},
 	// class-specific use of the operand itself
 	{"self", fCore, "‹self›", "‹selfT›", nil},
 	// binary
@@ -397,7 +398,7 @@ var c03Forms = []c03Form{
 	{"nilcmp-ne", 0, "nil != vP", "bool", condNilable},
 	{"eq", fCore, "vP == vQ", "bool", condCmp},
 	{"ne", 0, "vP != vQ", "bool", condCmp},
-	{"lt", fCore, "vP < vQ", "bool", condOrd},
+	{"lt", 0, "vP < vQ", "bool", condOrd},
 	{"le", 0, "vP <= vQ", "bool", condOrd},
 	{"gt", 0, "vP > vQ", "bool", condOrd},
 	{"ge", 0, "vP >= vQ", "bool", condOrd},
@@ -412,7 +413,7 @@ var c03Forms = []c03Form{
 	{"andnot", 0, "vP &^ vQ", "τ", condInt},
 	{"shl", 0, "vP << vN", "τ", condInt},
 	{"shr", 0, "vP >> uint(vN)", "τ", condInt},
-	{"land", fCore, "vB && vN > 0", "bool", nil},
+	{"land", 0, "vB && vN > 0", "bool", nil},
 	{"lor", 0, "vB || vN > 0", "bool", nil},
 	{"same-operands", 0, "vP == vP", "bool", condCmp},
 	{"cmp-zero-lt", 0, "vP < *new(τ)", "bool", condOrd},
@@ -441,9 +442,9 @@ var c03Forms = []c03Form{
 	{"make-slice-const", 0, "make([]τ, 4)", "[]τ", nil},
 	{"make-slice-cap-const", 0, "make([]τ, vN, 8)", "[]τ", nil},
 	{"make-slice-cap", 0, "make([]τ, vN, vN)", "[]τ", nil},
-	{"make-map", fCore, "make(map[string]τ)", "map[string]τ", nil},
+	{"make-map", 0, "make(map[string]τ)", "map[string]τ", nil},
 	{"make-map-hint", 0, "make(map[string]τ, vN)", "map[string]τ", nil},
-	{"make-chan", fCore, "make(chan τ)", "chan τ", nil},
+	{"make-chan", 0, "make(chan τ)", "chan τ", nil},
 	{"make-chan-buf", 0, "make(chan τ, vN)", "chan τ", nil},
 	{"new", fCore, "new(τ)", "*τ", nil},
 	{"new-expr", 0, "new(vP)", "*τ", nil},
